@@ -113,3 +113,5 @@ Definition program_fconsts (p : program) : list string := extend_all string_dec 
 
 Definition arel_to_rel (r : arel) : rel :=
   match r with AEq => REq | ANe => RNe | AGt => RGt | ALt => RLt | AGe => RGe | ALe => RLe end.
+
+(* EXTRACT: program program_preds program_vars program_fconsts program_head_preds rule_terms body_pos_preds arel_to_rel *)
